@@ -19,7 +19,7 @@ func TestMain(m *testing.M) { lib.Main(m) }
 var spec = lib.Spec{
 	ID: "C05",
 	Rule: "generated dependency graphs (4-10 targets, 1-3 packages, optionally with rules defined through a subincluded wrapper) with 1-2 injected faults drawn from: failing command (exit 3), BUILD syntax error in a package (needed or not needed), " +
-		"dependency on an undefined target of an existing package, dependency on a missing package, dependency cycle through 1..n targets, a subincluded build_defs file shared by every package that does not parse or whose producing target fails; built from an empty plz-out with/without --keep_going and -n in {1,4,16}, request = drawn roots. " +
+		"dependency on an undefined target of an existing package, dependency on a missing package, dependency cycle through 1..n targets, a subincluded build_defs file shared by every package that does not parse, whose producing target fails, or whose producing target's own dependency fails; built from an empty plz-out (or, one case in three, from a plz-out warmed by a complete build of the same repository without the command failures, so that outputs below a failure exist) with/without --keep_going and -n in {1,4,16}, request = drawn roots. " +
 		"Reference computed on the model: mustFail <=> the dependency closure of the request contains an unbuildable element. Checks: plz exits non-zero <=> mustFail; no command whose (transitive) dependency is unbuildable ever starts; " +
 		"the process ends within the budget (60 s, where < 1 s or ~5-10 s for cycles is expected; exceeding it counts as a hang only if the process group then stays idle and childless for 5 s, else inconclusive); no Go panic. " +
 		"Non-trivial = a fault reachable from a requested root through >= 2 edges, or a broken package needed by >= 2 requested roots; distinct = JSON of the case",
@@ -35,11 +35,15 @@ type Case struct {
 	KeepGoing bool
 	Workers   int
 	Faults    []string
+	// Warm: the repository is first built completely WITHOUT the injected command failures (so every output,
+	// also those of targets below a later failure, exists in plz-out), then the failures are switched on
+	// (with a changed command, so the failing target has to re-run) and the build under test runs.
+	Warm bool `json:",omitempty"`
 }
 
 func gen(t *rapid.T) Case {
 	r := lib.GenRepo(t, lib.RepoGenOpts{MinTargets: 4, MaxTargets: 10, Kinds: []string{"cat", "cat", "count", "multi", "dirn"}, NoGlob: true})
-	r.Subinclude = rapid.IntRange(0, 2).Draw(t, "subinclude") == 0
+	r.Subinclude = rapid.IntRange(0, 1).Draw(t, "subinclude") == 0
 	c := Case{R: r, KeepGoing: rapid.Bool().Draw(t, "keep_going"), Workers: rapid.SampledFrom([]int{1, 4, 16}).Draw(t, "workers")}
 	nf := rapid.SampledFrom([]int{0, 1, 1, 1, 1, 2, 2}).Draw(t, "nfaults")
 	for i, attempts := 0, 0; i < nf && attempts < 8; attempts++ {
@@ -93,12 +97,39 @@ func gen(t *rapid.T) Case {
 			c.Faults = append(c.Faults, fmt.Sprintf("cycle %s -> %s", tg.Label(), back))
 		}
 	}
-	if r.Subinclude && rapid.IntRange(0, 2).Draw(t, "break_defs") == 0 {
+	c.Warm = rapid.IntRange(0, 1).Draw(t, "warm") == 0
+	if r.Subinclude && rapid.IntRange(0, 1).Draw(t, "defs_chain") == 0 {
+		// the subincluded file is itself built from another target, and THAT target's command fails
+		r.DefsChain = true
+		r.Pkgs = append(r.Pkgs, "slow", "defs")
+		r.Files = append(r.Files, lib.RFile{Pkg: "slow", Path: "s.txt", Content: "x\n"})
+		slow := &lib.RTarget{Pkg: "slow", Name: "gen", Kind: "genrule", Cmd: "cat", Srcs: []lib.RSrc{{File: "s.txt"}}, Outs: []string{"gen.out"}, Fail: true}
+		defs := &lib.RTarget{Pkg: "defs", Name: "defs", Kind: "genrule", Cmd: "defs", Srcs: []lib.RSrc{{Label: slow.Label()}}, Outs: []string{"defs.build_defs"}}
+		r.Targets = append([]*lib.RTarget{slow, defs}, r.Targets...)
+		c.Faults = append(c.Faults, "subinclude-dependency-fails (//slow:gen below //defs:defs)")
+		c.Warm = false
+	} else if r.Subinclude && rapid.IntRange(0, 2).Draw(t, "break_defs") == 0 {
 		r.BrokenDefs = rapid.SampledFrom([]string{"syntax", "build"}).Draw(t, "defs_fault")
 		c.Faults = append(c.Faults, "subinclude-"+r.BrokenDefs+" (shared by every package)")
 	}
 	ls := r.Labels()
 	n := rapid.IntRange(1, min(3, len(ls))).Draw(t, "nroots")
+	extraRoot := ""
+	if c.Warm && rapid.Bool().Draw(t, "warm_chain") && !r.DefsChain && r.BrokenDefs == "" {
+		// a failing command two edges below a requested root whose intermediate dependency has been built
+		// before: the root must not run on the strength of that left-over output
+		p := r.Pkgs[0]
+		f := r.FilesOf(p)
+		if len(f) > 0 {
+			wc := &lib.RTarget{Pkg: p, Name: "wc", Kind: "genrule", Cmd: "cat", Srcs: []lib.RSrc{{File: f[0].Path}}, Outs: []string{"wc.out"}, Fail: true}
+			wb := &lib.RTarget{Pkg: p, Name: "wb", Kind: "genrule", Cmd: "cat", Srcs: []lib.RSrc{{Label: wc.Label()}}, Outs: []string{"wb.out"}}
+			wa := &lib.RTarget{Pkg: rapid.SampledFrom(r.Pkgs).Draw(t, "wapkg"), Name: "wa", Kind: "genrule", Cmd: "cat", Srcs: []lib.RSrc{{Label: wb.Label()}}, Outs: []string{"wa.out"}}
+			r.Targets = append(r.Targets, wc, wb, wa)
+			c.Faults = append(c.Faults, "fail "+wc.Label()+" (two edges below root "+wa.Label()+", built before)")
+			c.KeepGoing = c.KeepGoing || rapid.Bool().Draw(t, "warm_keep_going")
+			extraRoot = wa.Label()
+		}
+	}
 	// favour late targets as roots (long dependency chains below them)
 	late := ls[len(ls)/2:]
 	// roots that reach an unbuildable origin only through >= 2 edges (the non-trivial shape)
@@ -117,6 +148,9 @@ func gen(t *rapid.T) Case {
 		c.Req = rapid.Permutation(late).Draw(t, "roots")[:n]
 	} else {
 		c.Req = rapid.Permutation(ls).Draw(t, "roots")[:n]
+	}
+	if extraRoot != "" {
+		c.Req = append(c.Req, extraRoot)
 	}
 	return c
 }
@@ -164,6 +198,41 @@ func run(c Case, o *lib.Obs) error {
 	if err := st.Sync(e.W, nil); err != nil {
 		return &lib.Inconclusive{Msg: err.Error()}
 	}
+	if c.Warm {
+		w := st.Clone()
+		anyFail := false
+		for _, t := range w.Targets {
+			if t.Fail {
+				t.Fail = false
+				anyFail = true
+			}
+		}
+		wok := w.Buildable()
+		// everything except the requested roots themselves: their dependencies' outputs then exist,
+		// while the roots still have to run their commands in the build under test
+		isReq := map[string]bool{}
+		for _, l := range c.Req {
+			isReq[l] = true
+		}
+		var buildable []string
+		for _, l := range w.Labels() {
+			if wok[l] && !isReq[l] {
+				buildable = append(buildable, l)
+			}
+		}
+		if anyFail && len(buildable) > 0 {
+			if err := w.Sync(e.W, nil); err != nil {
+				return &lib.Inconclusive{Msg: err.Error()}
+			}
+			if res := e.PlzW().Run(lib.BuildTimeout, append([]string{"build", "--keep_going"}, buildable...)...); res.TimedOut {
+				return &lib.Inconclusive{Msg: "warm-up build timed out"}
+			}
+			if err := st.Sync(e.W, nil); err != nil {
+				return &lib.Inconclusive{Msg: err.Error()}
+			}
+			o.Label("warm_plz_out")
+		}
+	}
 	ok := st.Buildable()
 	mustFail := false
 	for _, l := range c.Req {
@@ -171,7 +240,9 @@ func run(c Case, o *lib.Obs) error {
 			mustFail = true
 		}
 	}
-	os.RemoveAll(filepath.Join(e.W, "plz-out"))
+	if !c.Warm {
+		os.RemoveAll(filepath.Join(e.W, "plz-out"))
+	}
 	lib.ResetActions(e.W)
 	args := []string{"build", "-n", fmt.Sprint(c.Workers)}
 	if c.KeepGoing {
